@@ -90,6 +90,10 @@ pub struct ConnScenario {
     pub wplan: Vec<WRule>,
     /// virtual-time cap of the run
     pub cap_ns: u64,
+    /// connections handled earlier by the same process and thread (whatever the code under simulation
+    /// keeps between connections - a cache, a static, a counter - is primed by them)
+    #[serde(default, skip_serializing_if = "Vec::is_empty")]
+    pub prelude: Vec<ConnScenario>,
 }
 
 #[derive(Clone, Debug, Serialize, Deserialize, PartialEq)]
@@ -206,6 +210,11 @@ pub fn new_runtime(seed: u64) -> tokio::runtime::Runtime {
         .rng_seed(tokio::runtime::RngSeed::from_bytes(&seed.to_le_bytes()))
         .build()
         .expect("runtime")
+}
+
+/// Runs the scenario's earlier connections (in order, same thread) and returns their outcomes.
+pub fn run_prelude(sc: &ConnScenario) -> Vec<ConnOutcome> {
+    sc.prelude.iter().map(run_conn).collect()
 }
 
 pub fn run_conn(sc: &ConnScenario) -> ConnOutcome {
